@@ -53,3 +53,52 @@ package remedies
 //@   ensures[store-if-absent] seq: forall(k, CacheKey, old(in(k, rbtCache(plugin).cache)) && old(now()) <= old(rbtCache(plugin).cache[k].expirationTimeNano) && now() <= old(rbtCache(plugin).cache[k].expirationTimeNano) ==> in(k, rbtCache(plugin).cache) && rbtCache(plugin).cache[k] == old(rbtCache(plugin).cache[k]))
 //@   ensures[only-own-key] seq: forall(k, CacheKey, k != CacheKey{onResponse.Method, onResponse.URL} ==> (in(k, rbtCache(plugin).cache) <==> old(in(k, rbtCache(plugin).cache))) && rbtCache(plugin).cache[k] == old(rbtCache(plugin).cache[k]))
 //@   ensures[stored-is-this-response] seq: in(CacheKey{onResponse.Method, onResponse.URL}, rbtCache(plugin).cache) && !old(in(CacheKey{onResponse.Method, onResponse.URL}, rbtCache(plugin).cache)) ==> rbtCache(plugin).cache[CacheKey{onResponse.Method, onResponse.URL}].value.Status == onResponse.Status && rbtCache(plugin).cache[CacheKey{onResponse.Method, onResponse.URL}].value.Body == onResponse.Body && rbtCache(plugin).cache[CacheKey{onResponse.Method, onResponse.URL}].value.Headers == onResponse.Headers
+
+// ---------------------------------------------------------------- caching remedy (C12)
+//@ ghost func cpCache(p *CachingPlugin) *utils.MemoryCache[CachingPluginKey,CachedResponse] = p.responseCache.(*utils.MemoryCache[CachingPluginKey,CachedResponse])
+//@ ghost func cpOK(p *CachingPlugin) bool = p != nil && typeis(p.responseCache, *utils.MemoryCache[CachingPluginKey,CachedResponse]) && cpCache(p) != nil && cpCache(p).clock != nil && cpCache(p).cache != nil
+
+//@ func (*CachingPlugin).OnRequest
+//@   prop C12
+//@   requires cpOK(plugin) && remedyConfig != nil
+//@   allocates map, NoOpAction, EarlyResponseAction
+//@   modifies now
+//@   ensures[action-kind] result1 == nil && (typeis(result0, *actions.NoOpAction) || typeis(result0, *actions.EarlyResponseAction))
+//@   ensures[served-only-if-stored-same-key] seq: typeis(result0, *actions.EarlyResponseAction) ==> in(CachingPluginKey{onRequest.Method, onRequest.URL, extractHashedPathParams(pathParams, remedyConfig.RequestPayloadPaths)}, cpCache(plugin).cache) && result0.(*actions.EarlyResponseAction).Status == cpCache(plugin).cache[CachingPluginKey{onRequest.Method, onRequest.URL, extractHashedPathParams(pathParams, remedyConfig.RequestPayloadPaths)}].value.Status && result0.(*actions.EarlyResponseAction).Body == cpCache(plugin).cache[CachingPluginKey{onRequest.Method, onRequest.URL, extractHashedPathParams(pathParams, remedyConfig.RequestPayloadPaths)}].value.Body && result0.(*actions.EarlyResponseAction).Headers == cpCache(plugin).cache[CachingPluginKey{onRequest.Method, onRequest.URL, extractHashedPathParams(pathParams, remedyConfig.RequestPayloadPaths)}].value.Headers
+//@   ensures[served-only-while-fresh] seq: typeis(result0, *actions.EarlyResponseAction) ==> old(now()) <= cpCache(plugin).cache[CachingPluginKey{onRequest.Method, onRequest.URL, extractHashedPathParams(pathParams, remedyConfig.RequestPayloadPaths)}].expirationTimeNano
+//@   ensures[miss-passes] seq: !in(CachingPluginKey{onRequest.Method, onRequest.URL, extractHashedPathParams(pathParams, remedyConfig.RequestPayloadPaths)}, cpCache(plugin).cache) ==> typeis(result0, *actions.NoOpAction)
+//@   ensures[cache-untouched] seq: forall(k, CachingPluginKey, (in(k, cpCache(plugin).cache) <==> old(in(k, cpCache(plugin).cache))) && cpCache(plugin).cache[k] == old(cpCache(plugin).cache[k]))
+
+//@ func (*CachingPlugin).OnResponse
+//@   prop C12
+//@   requires cpOK(plugin) && remedyConfig != nil && plugin.clock != nil
+//@   allocates map, NoOpAction
+//@   modifies mapof(cpCache(plugin).cache), cpCache(plugin).currentCacheSize, cpCache(plugin).calculateCacheSize, cpCache(plugin).calculateSizeFunc, cpCache(plugin).maxCacheSize, now
+//@   ensures[noop] result1 == nil && typeis(result0, *actions.NoOpAction)
+//@   ensures[store-if-absent] seq: forall(k, CachingPluginKey, old(in(k, cpCache(plugin).cache)) && now() <= old(cpCache(plugin).cache[k].expirationTimeNano) ==> in(k, cpCache(plugin).cache) && cpCache(plugin).cache[k] == old(cpCache(plugin).cache[k]))
+//@   ensures[only-own-key] seq: forall(k, CachingPluginKey, k != CachingPluginKey{onResponse.Method, onResponse.URL, extractHashedPathParams(pathParams, remedyConfig.RequestPayloadPaths)} ==> (in(k, cpCache(plugin).cache) <==> old(in(k, cpCache(plugin).cache))) && cpCache(plugin).cache[k] == old(cpCache(plugin).cache[k]))
+//@   ensures[stored-is-this-response] seq: in(CachingPluginKey{onResponse.Method, onResponse.URL, extractHashedPathParams(pathParams, remedyConfig.RequestPayloadPaths)}, cpCache(plugin).cache) && !old(in(CachingPluginKey{onResponse.Method, onResponse.URL, extractHashedPathParams(pathParams, remedyConfig.RequestPayloadPaths)}, cpCache(plugin).cache)) ==> cpCache(plugin).cache[CachingPluginKey{onResponse.Method, onResponse.URL, extractHashedPathParams(pathParams, remedyConfig.RequestPayloadPaths)}].value.Status == onResponse.Status && cpCache(plugin).cache[CachingPluginKey{onResponse.Method, onResponse.URL, extractHashedPathParams(pathParams, remedyConfig.RequestPayloadPaths)}].value.Body == onResponse.Body
+//@   ensures[size-bound] seq: cpCache(plugin).currentCacheSize > old(cpCache(plugin).currentCacheSize) ==> cpCache(plugin).currentCacheSize <= real(remedyConfig.MaxCacheSizeMegabytes)
+
+// ---------------------------------------------------------------- retry remedy, policy mode (C17)
+//@ ghost func rpCache(p *RetryPlugin) *utils.MemoryCache[string,RetryState] = p.cache.(*utils.MemoryCache[string,RetryState])
+//@ ghost func rpOK(p *RetryPlugin) bool = p != nil && typeis(p.cache, *utils.MemoryCache[string,RetryState]) && rpCache(p) != nil && rpCache(p).clock != nil && rpCache(p).cache != nil && !rpCache(p).calculateCacheSize
+// stored state of a sequence: between 1 and the configured number of attempts are left
+//@ ghost func rpInv(p *RetryPlugin, cfg *sharedConfig.RetryConfig) bool = forall(s, string, in(s, rpCache(p).cache) ==> 1 <= rpCache(p).cache[s].value.attemptsLeft && rpCache(p).cache[s].value.attemptsLeft <= cfg.Attempts)
+//@ ghost func inSomeRange(status int, cfg *sharedConfig.RetryConfig) bool = exists(j, 0, len(cfg.Conditions.StatusCode), cfg.Conditions.StatusCode[j].From <= status && status <= cfg.Conditions.StatusCode[j].To)
+
+//@ func (*RetryPlugin).OnResponse
+//@   prop C17
+//@   requires rpOK(plugin) && remedyConfig != nil && remedyConfig.Attempts >= 1
+//@   requires[inv] rpInv(plugin, remedyConfig)
+//@   allocates map, NoOpAction, ModifyResponseAction, OnResponse
+//@   modifies mapof(rpCache(plugin).cache), rpCache(plugin).currentCacheSize, now
+//@   loop 1 invariant[no-earlier-range] forall(j, 0, idx1, onResponse.Status < remedyConfig.Conditions.StatusCode[j].From || onResponse.Status > remedyConfig.Conditions.StatusCode[j].To)
+//@   loop 1 modifies nothing
+//@   ensures[kind] result1 == nil && (typeis(result0, *actions.NoOpAction) || typeis(result0, *actions.ModifyResponseAction))
+//@   ensures[inv-preserved] rpInv(plugin, remedyConfig)
+//@   ensures[out-of-range-ends-sequence] seq: !inSomeRange(onResponse.Status, remedyConfig) ==> typeis(result0, *actions.NoOpAction) && !in(onResponse.SequenceID, rpCache(plugin).cache)
+//@   ensures[retry-only-in-range] seq: typeis(result0, *actions.ModifyResponseAction) ==> inSomeRange(onResponse.Status, remedyConfig)
+//@   ensures[retry-needs-attempts] seq: typeis(result0, *actions.ModifyResponseAction) ==> (old(in(onResponse.SequenceID, rpCache(plugin).cache)) && retryState.attemptsLeft == old(rpCache(plugin).cache[onResponse.SequenceID].value.attemptsLeft)) || (onResponse.ID == onResponse.SequenceID && retryState.attemptsLeft == remedyConfig.Attempts)
+//@   ensures[retry-consumes-attempt] seq: typeis(result0, *actions.ModifyResponseAction) ==> (retryState.attemptsLeft - 1 >= 1 ==> in(onResponse.SequenceID, rpCache(plugin).cache) && rpCache(plugin).cache[onResponse.SequenceID].value.attemptsLeft == retryState.attemptsLeft - 1) && (retryState.attemptsLeft - 1 < 1 ==> !in(onResponse.SequenceID, rpCache(plugin).cache))
+//@   ensures[others-untouched] seq: forall(s, string, s != onResponse.SequenceID ==> (in(s, rpCache(plugin).cache) <==> old(in(s, rpCache(plugin).cache))) && rpCache(plugin).cache[s] == old(rpCache(plugin).cache[s]))
